@@ -16,7 +16,8 @@ Real `confidence_region_check_dominates` → `RectangularConfidenceRegion.check_
   reference `ref` with the requirement relaxed by 1e-9·scale answers True;
 * (R) completeness, 2×2 cones with det ≠ 0: reference holds with margin 1e-6·scale ⇒ code answers
   True; a miss that the `r64` mirror reproduces is the rounding defect `complete2x2-float-rounding`
-  (the intersection's own coordinate comes out one ulp above the target), any other miss is
+  (the intersection's own coordinate comes out one ulp above the target; present in the original
+  code, repaired by /repo commit 2e45ea6, regression cases in corpus/C11), any other miss is
   `complete2x2`;
 * (R) pessimistic set: designs with no candidate dominator (relaxed reference False for every other
   active design) must be kept (all cones); for 2×2 cones designs with a margin-dominator must be dropped.
